@@ -11,7 +11,7 @@ for p in "$@"; do
   done > /tmp/confirm_$p.log 2>&1
   for l in A B C; do
     [ -f /tmp/seed_out/$p/$l/patch.diff ] || continue
-    echo "#### $p/$l -> $prop"; tools/with_patch.sh /tmp/seed_out/$p/$l/patch.diff $prop quick 2>&1 | grep -E "VIOLATION|check=|Quick:|HARNESS|error" | cut -c1-300 | head -8
+    echo "#### $p/$l -> $prop"; VERIF_FROM_HEAD=1 tools/with_patch.sh /tmp/seed_out/$p/$l/patch.diff $prop quick 2>&1 | grep -E "VIOLATION|check=|Quick:|HARNESS|error" | cut -c1-300 | head -8
   done > /tmp/eval_$p.log 2>&1
   git -C /repo worktree remove --force /tmp/wt/$p
 done
